@@ -9,7 +9,7 @@ import struct
 from sa.astx import NotConst, const_eval, statements
 from sa.selftest import Mutant, Silent
 from sa.source import AnalysisError, class_assigns
-from sa.props._lib_d import MiniVM, VMError, VMObj, VMStub
+from sa.props._lib_h_d import MiniVM, VMError, VMObj, VMStub
 
 PROPERTY = "C35"
 TR = "conch/ssh/transport.py"
@@ -206,7 +206,8 @@ def _call(vm, obj, name, *args):
 
 def make_vm(ctx, hooks=None):
     mod = ctx.mod(TR)
-    vm = MiniVM(mod, hooks=hooks or {}, budget=4 * 10 ** 7, siblings={"twisted.conch.ssh.common": ctx.mod(CMN)})
+    from sa.props._lib_h import xvm
+    vm = xvm(mod, hooks=hooks or {}, budget=4 * 10 ** 7, siblings={"twisted.conch.ssh.common": ctx.mod(CMN)})
 
     def _has(o, n):
         try:
